@@ -260,3 +260,37 @@ Theorem C02_instant_rollback_documented :
   recoverable (VpH pa h) (Vp (pk_h pa h)) B0 wh.
 Proof. exact c02_instant_rollback_documented. Qed.
 Print Assumptions C02_instant_rollback_documented.
+
+(* ------------------------------------------------------------------ *)
+(** ** the layering of the constructors New / NewWithFS
+    [ncfg q = mkConfig None [q] q]: HiddenFS directly over the OS filesystem
+    (no PrefixFS), the backup location [q] - an absolute cleaned path other
+    than "/" - hidden from the base and the root of the backup filesystem.
+    The base view [V0H q] (Spec/ViewRoot.v) is the WHOLE filesystem except the
+    location and what lies below it; it shows link targets as stored ([tn_0],
+    the identity: without PrefixFS nothing cleans them).  The root "/" is a
+    proper ancestor of the location ([anc_h q]): it cannot be removed (EBUSY)
+    or renamed.  Proofs/LawsNew.v. *)
+From BFS Require Import Spec.ViewHidden Spec.ViewRoot Proofs.LawsNew.
+
+Theorem C02_instant_new :
+  forall q, hidden_ok q ->
+  forall B0, all_small B0 ->
+  forall w0 ops w,
+    initial (V0H q) (Vp q) tn_0 clean (acc_0 q) (acc_p q) B0 w0 ->
+    good_run (cfg_base (ncfg q)) (cfg_backup (ncfg q)) (V0H q) w0 ops w ->
+  forall k outs wh, run_history (ncfg q) ops (with_crash w0 (Some k)) = (outs, wh) ->
+  recoverable (V0H q) (Vp q) B0 wh.
+Proof. exact c02_instant_new. Qed.
+Print Assumptions C02_instant_new.
+
+Theorem C02_instant_rollback_new :
+  forall q, hidden_ok q ->
+  forall B0, all_small B0 ->
+  forall w0 ops w,
+    initial (V0H q) (Vp q) tn_0 clean (acc_0 q) (acc_p q) B0 w0 ->
+    good_run (cfg_base (ncfg q)) (cfg_backup (ncfg q)) (V0H q) w0 ops w ->
+  forall k outs wh, run_history (ncfg q) (ops ++ [ORollback]) (with_crash w0 (Some k)) = (outs, wh) ->
+  recoverable (V0H q) (Vp q) B0 wh.
+Proof. exact c02_instant_rollback_new. Qed.
+Print Assumptions C02_instant_rollback_new.
